@@ -117,6 +117,9 @@ def run(ck, only=None):
     if ck.tier != "thorough":
         oa = [c for c in oa if len(c.atoms) <= 2 or (c.atoms[1] in gen_c.OVERALIGNED_ARRAY_ATOMS and c.atoms[0] in ("char", "int") and c.atoms[2] in ("char", "int"))]
     oa = [c for c in oa if set(c.atoms) & set(gen_c.OVERALIGNED_ARRAY_ATOMS)]
+    # anonymous over-aligned members after / between members of every small size (the offset they start from matters)
+    an = gen_c.enumerate_records(3, atoms=["char", "int", "llong"] + gen_c.ANON_OVERALIGNED_ATOMS, rattrs=["plain", "al16"], kinds=("struct",))
+    oa += [c for c in an if sum(a in gen_c.ANON_OVERALIGNED_ATOMS for a in c.atoms) == 1 and (len(c.atoms) < 3 or c.atoms[1] in gen_c.ANON_OVERALIGNED_ATOMS)]
     # pointers to functions whose calling convention is (un)supported: alone and between small members
     fa = gen_c.enumerate_records(3, atoms=["char", "int"] + gen_c.FNPTR_ABI_ATOMS, rattrs=["plain", "packed"])
     oa += [c for c in fa if set(c.atoms) & set(gen_c.FNPTR_ABI_ATOMS) and (len(c.atoms) <= 2 or (c.atoms[1] in gen_c.FNPTR_ABI_ATOMS and c.atoms[0] == "char" and c.atoms[2] == "int"))]
